@@ -140,6 +140,12 @@ def check_case(ctx, case):
             if not isinstance(rm, list) or len(rm) != len(order):
                 return fail('multi-evalf', 'evalf=%r returns %s instead of %d interval matrices' % (
                     case['multi'], type(rm).__name__, len(order)))
+            def cb_targets(f, req=list(case['multi']), n=len(rm)):
+                model_order = f[0].split()
+                if model_order != order or n != len(model_order):
+                    ctx.tie_break('model: a call with targets %r returns the matrices of %r, the documented order gives %r '
+                                  '(implementation returned %d)' % (req, model_order, order, n))
+            ctx.lean.ask(['c19', 'targets', ' '.join(case['multi'])], cb_targets)
             for name, got, want in zip(order, rm, singles):
                 got = np.asarray(got, float)
                 if got.shape != want.shape or not all_close(got.ravel().tolist(), want.ravel().tolist(), rel=1e-9,
